@@ -209,9 +209,16 @@ def payload(kind, name, inc, seq, topic):
     if kind == 'dataonly':
         return Frame(data), {'img': None, 'jpg': None, 'data': data}
 
-    if kind in ('bgr', 'rgb', 'nodata'):
+    if kind in ('bgr', 'rgb', 'nodata', 'rojpg'):
         arr = ((np.arange(36, dtype=np.int64) * 5 + seq * 7 + len(topic)) % 256).astype(np.uint8).reshape(3, 4, 3)
         fmt = 'RGB' if kind == 'rgb' else 'BGR'
+
+        if kind == 'rojpg':      # a read-only raw frame whose JPEG encoding has been asked for (and is cached in the frame): still a raw image
+            arr.flags.writeable = False
+            frame = Frame(arr, data, fmt)
+            frame.jpg
+
+            return frame, {'img': ((3, 4, 3), fmt, sha(arr.tobytes())), 'jpg': None, 'data': data}
 
         return Frame(arr, data, fmt), {'img': ((3, 4, 3), fmt, sha(arr.tobytes())), 'jpg': None, 'data': data}
 
@@ -355,8 +362,9 @@ def SimFilterClass():
                         dat.update(fresh.data)
                         out[t] = Frame(buf, dat, 'BGR')
 
-                elif pl is not None:    # {'rotate': True} -> kind of (topic j, seq k) = KINDS[(j + k) % len]
-                    out = {t: payload(KINDS[(j + seq) % len(KINDS)], spec['name'], w.current.incarnation, seq, t)[0]
+                elif pl is not None:    # {'rotate': True} -> kind of (topic j, seq k) = KINDS[(j + k) % len]   ({'kinds': [...]}: that list instead)
+                    kinds = pl.get('kinds') or KINDS
+                    out = {t: payload(kinds[(j + seq) % len(kinds)], spec['name'], w.current.incarnation, seq, t)[0]
                            for j, t in enumerate(spec.get('topics', ['main']))}
                 else:
                     tps = (spec.get('topics_at') or {}).get(str(seq), (spec.get('topics_at') or {}).get(seq, spec.get('topics', ['main'])))
@@ -842,6 +850,33 @@ def install_faults(w, scn):
                     p.user['evt'].set()
 
                 acts.append(Action('fault', p, do, label='stop'))
+
+        # several filters die in the same instant (the machine they share reboots) and come back together
+        for group in spec.get('groups', ()):
+            procs = [max((q for q in world.procs if q.name == n), key=lambda q: q.incarnation) for n in group]
+
+            if any(q.state in ('done', 'new') for q in procs) or (when == 'next' and default not in procs):
+                continue
+
+            for d in delays:
+                def do(procs=procs, d=d, group=group):
+                    for q in procs:
+                        world.log.append({'ev': 'kill', 'f': q.name, 'inc': q.incarnation, 't': world.now, 'restart': d, 'group': list(group)})
+                        world.kill(q, drop_inflight=spec.get('drop_inflight', True), drop_inbound=True)
+
+                    if (after := spec.get('after_ms')) is not None:
+                        world.horizon_ms = world.now + (d or 0) + after
+                        world.quiet_ms   = None
+
+                    if d is not None:
+                        def restart(procs=procs):
+                            for q in procs:
+                                world.log.append({'ev': 'restart', 'f': q.name, 'inc': q.incarnation + 1, 't': world.now})
+                                world.start_filter(byname[q.name], q.incarnation + 1)
+
+                        world.at(d, restart, f'restart {"+".join(group)}')
+
+                acts.append(Action('fault', procs[0], do, label=f'kill-group:{"+".join(group)}:{d}'))
 
         if 'lose' in kinds:
             for pipe in world.net.pipes:
